@@ -40,7 +40,10 @@ CONSTANTS
     MaxWrites,      \* bound on written points
     MaxLifecycle,   \* bound on StartTask/StopTask/DeleteTask calls
     Dedup,          \* TRUE: forkPoint hands a point to a task edge at most once (the code after the fix)
-    FailCleansUp    \* TRUE: a StartTask that fails after newFork removes the fork again (the code after the fix)
+    FailCleansUp,   \* TRUE: a StartTask that fails after newFork removes the fork again (the code after the fix)
+    MaxDeaths,      \* bound on tasks dying at run time
+    StopAtFirstError \* TRUE: forkPoint stops handing a point out at the first edge whose Collect fails (a seeded
+                    \* regression: the code ignores the error of each Collect and goes on)
 
 VARIABLES
     def,            \* [tasks -> Shapes], fixed during a behaviour
@@ -52,9 +55,13 @@ VARIABLES
     delivered,      \* [tasks -> [from index -> Seq(seq number)]]  what each from() node passed on
     written,        \* ghost: all points ever written, in write order (index = seq)
     status,         \* ghost: [seq -> [tasks -> {"must","may","mustnot"}]]
-    nl              \* lifecycle calls so far
+    nl,             \* lifecycle calls so far
+    dead,           \* executing tasks whose pipeline has failed at run time: the source node has aborted the
+                    \* task's fork edge (Collect returns ErrAborted); nobody has stopped the task yet
+    died            \* ghost: tasks that ever died (out of the verdict)
 
-vars == <<def, executing, forks, taskToForkKeys, ingest, taskEdge, delivered, written, status, nl>>
+vars == <<def, executing, forks, taskToForkKeys, ingest, taskEdge, delivered, written, status, nl, dead, died>>
+dvars == <<dead, died>>
 
 T == DOMAIN def
 Range(s) == { s[i] : i \in DOMAIN s }
@@ -89,6 +96,7 @@ Init ==
     /\ taskEdge = [t \in TaskIds |-> <<>>]
     /\ delivered = [t \in TaskIds |-> EmptyDelivered(def[t])]
     /\ written = <<>> /\ status = <<>> /\ nl = 0
+    /\ dead = {} /\ died = {}
 
 (* ---------------- ingest ---------------- *)
 MkPoint(b, i, s) == [seq |-> s, db |-> b.db, rp |-> IF b.rp = "" THEN DefaultRP ELSE b.rp,
@@ -104,7 +112,7 @@ WriteBatchR(b, racing) ==
     /\ written' = written \o NewPoints(b)
     /\ status' = status \o [i \in DOMAIN b.pts |->
                     [t \in T |-> IF t \in racing THEN "may" ELSE IF t \in executing THEN "must" ELSE "mustnot"]]
-    /\ UNCHANGED <<def, executing, forks, taskToForkKeys, taskEdge, delivered, nl>>
+    /\ UNCHANGED <<def, executing, forks, taskToForkKeys, taskEdge, delivered, nl, dvars>>
 WriteBatch(b) == WriteBatchR(b, {})
 
 (* ---------------- forkPoint ---------------- *)
@@ -114,12 +122,21 @@ ForkCount(fk, t, p) ==
     IN  IF Dedup /\ a + b > 1 THEN 1 ELSE a + b
 Rep(p, n) == [i \in 1..n |-> p]
 
+(* Collect fails on the edge of a dead task and the code goes on with the next    *)
+(* edge.  StopAtFirstError: the iteration (Go map order) ends at the first failing *)
+(* edge, so any subset of the live subscribers may miss the point.                 *)
+ForkTo(p, recv) ==
+    /\ taskEdge' = [t \in T |-> IF t \in recv THEN taskEdge[t] \o Rep(p, ForkCount(forks, t, p)) ELSE taskEdge[t]]
+    /\ ingest' = Tail(ingest)
+    /\ UNCHANGED <<def, executing, forks, taskToForkKeys, delivered, written, status, nl, dvars>>
 Fork ==
     /\ ingest # <<>>
     /\ LET p == Head(ingest)
-       IN  taskEdge' = [t \in T |-> taskEdge[t] \o Rep(p, ForkCount(forks, t, p))]
-    /\ ingest' = Tail(ingest)
-    /\ UNCHANGED <<def, executing, forks, taskToForkKeys, delivered, written, status, nl>>
+           live == { t \in T \ dead : ForkCount(forks, t, p) > 0 }
+           hitsDead == \E t \in dead : ForkCount(forks, t, p) > 0
+       IN  IF StopAtFirstError /\ hitsDead
+           THEN \E recv \in SUBSET live : ForkTo(p, recv)
+           ELSE ForkTo(p, live)
 
 (* ---------------- the task side ---------------- *)
 DeliverOne(dl, t, p) ==
@@ -128,23 +145,26 @@ RECURSIVE DrainInto(_, _, _)
 DrainInto(dl, t, q) == IF q = <<>> THEN dl ELSE DrainInto(DeliverOne(dl, t, Head(q)), t, Tail(q))
 
 Consume(t) ==
-    /\ t \in executing /\ taskEdge[t] # <<>>
+    /\ t \in executing \ dead /\ taskEdge[t] # <<>>
     /\ delivered' = [delivered EXCEPT ![t] = DeliverOne(@, t, Head(taskEdge[t]))]
     /\ taskEdge' = [taskEdge EXCEPT ![t] = Tail(@)]
-    /\ UNCHANGED <<def, executing, forks, taskToForkKeys, ingest, written, status, nl>>
+    /\ UNCHANGED <<def, executing, forks, taskToForkKeys, ingest, written, status, nl, dvars>>
 
 (* Fork immediately followed by the task consuming what it was handed (used by  *)
 (* the trace specification, where the edges are not observable in between).      *)
 ForkAndConsume ==
     /\ ingest # <<>>
     /\ LET p == Head(ingest)
-       IN  delivered' = [t \in T |-> DrainInto(delivered[t], t, taskEdge[t] \o Rep(p, ForkCount(forks, t, p)))]
+       IN  delivered' = [t \in T |-> IF t \in dead THEN delivered[t]
+                                      ELSE DrainInto(delivered[t], t, taskEdge[t] \o Rep(p, ForkCount(forks, t, p)))]
     /\ taskEdge' = [t \in T |-> <<>>]
     /\ ingest' = Tail(ingest)
-    /\ UNCHANGED <<def, executing, forks, taskToForkKeys, written, status, nl>>
+    /\ UNCHANGED <<def, executing, forks, taskToForkKeys, written, status, nl, dvars>>
 
 (* ---------------- lifecycle ---------------- *)
-InIngest(s) == \E i \in DOMAIN ingest : ingest[i].seq = s
+(* ingest is always the suffix written[h..] of the write order (FIFO, forked from *)
+(* the head), so membership is a comparison with the head                          *)
+InIngest(s) == ingest # <<>> /\ s >= Head(ingest).seq
 MarkRacy(t) == [s \in DOMAIN status |-> IF InIngest(s) THEN [status[s] EXCEPT ![t] = "may"] ELSE status[s]]
 
 StartTask(t) ==
@@ -155,7 +175,7 @@ StartTask(t) ==
     /\ taskEdge' = [taskEdge EXCEPT ![t] = <<>>]
     /\ status' = MarkRacy(t)
     /\ nl' = nl + 1
-    /\ UNCHANGED <<def, ingest, delivered, written>>
+    /\ UNCHANGED <<def, ingest, delivered, written, dvars>>
 
 (* StartTask returning an error AFTER newFork (the task's snapshot cannot be      *)
 (* loaded): the task is not executing.  Code as found: the fork stays registered *)
@@ -168,7 +188,16 @@ StartTaskFail(t) ==
        ELSE /\ taskToForkKeys' = [taskToForkKeys EXCEPT ![t] = @ \o ForkKeysOf(def[t])]
             /\ forks' = forks \cup { <<k, t>> : k \in Range(ForkKeysOf(def[t])) }
             /\ taskEdge' = [taskEdge EXCEPT ![t] = <<>>]
-    /\ UNCHANGED <<def, executing, ingest, delivered, written, status>>
+    /\ UNCHANGED <<def, executing, ingest, delivered, written, status, dvars>>
+
+(* A node of t fails at run time; the failure travels up the pipeline (each node  *)
+(* aborts its parent edges) until the source node aborts the fork edge: buffered  *)
+(* points are dropped, later Collects fail.  t stays in tm.tasks and tm.forks.     *)
+Die(t) ==
+    /\ t \in executing \ dead /\ Cardinality(died) < MaxDeaths
+    /\ dead' = dead \cup {t} /\ died' = died \cup {t}
+    /\ taskEdge' = [taskEdge EXCEPT ![t] = <<>>]
+    /\ UNCHANGED <<def, executing, forks, taskToForkKeys, ingest, delivered, written, status, nl>>
 
 (* stopTask: a no-op (still returning nil) when t is not executing *)
 DoStop(t) ==
@@ -180,8 +209,9 @@ DoStop(t) ==
             /\ delivered' = [delivered EXCEPT ![t] = DrainInto(@, t, taskEdge[t])]
             /\ taskEdge' = [taskEdge EXCEPT ![t] = <<>>]
             /\ status' = MarkRacy(t)
-       ELSE UNCHANGED <<executing, forks, taskToForkKeys, delivered, taskEdge, status>>
-    /\ UNCHANGED <<def, ingest, written>>
+            /\ dead' = dead \ {t}
+       ELSE UNCHANGED <<executing, forks, taskToForkKeys, delivered, taskEdge, status, dead>>
+    /\ UNCHANGED <<def, ingest, written, died>>
 StopTask(t) == DoStop(t)
 DeleteTask(t) == DoStop(t)      \* stopTask + delete hooks (none for these pipelines)
 
@@ -190,17 +220,21 @@ Lifecycle(t) == StartTask(t) \/ StartTaskFail(t) \/ StopTask(t) \/ DeleteTask(t)
 Next ==
     \/ \E b \in Batches : WriteBatch(b)
     \/ Fork
-    \/ \E t \in T : Consume(t) \/ Lifecycle(t)
+    \/ \E t \in T : Consume(t) \/ Lifecycle(t) \/ Die(t)
 
 Spec == Init /\ [][Next]_vars
 
 (* ---------------- properties ---------------- *)
 Statuses == {"must", "may", "mustnot"}
+IngestIsSuffix ==
+    \A i \in DOMAIN ingest : ingest[i] = written[Len(written) - Len(ingest) + i]
 TypeOK ==
+    /\ IngestIsSuffix
     /\ executing \subseteq T
     /\ \A pr \in forks : pr[2] \in T
     /\ \A s \in DOMAIN status : \A t \in T : status[s][t] \in Statuses
     /\ Len(status) = Len(written) /\ nl \in 0..MaxLifecycle
+    /\ dead \subseteq executing /\ dead \subseteq died /\ died \subseteq T
     /\ \A t \in T : DOMAIN delivered[t] = DOMAIN def[t].froms
 
 Settled(s, t) == ~InIngest(s) /\ \A i \in DOMAIN taskEdge[t] : taskEdge[t][i].seq # s
@@ -210,9 +244,9 @@ Settled(s, t) == ~InIngest(s) /\ \A i \in DOMAIN taskEdge[t] : taskEdge[t][i].se
 ExactlyOnce ==
     \A t \in T : \A k \in DOMAIN delivered[t] :
         LET q == delivered[t][k]
-        IN  /\ \A i, j \in DOMAIN q : i # j => q[i] # q[j]
+        IN  /\ \A i \in 1..(Len(q) - 1) : \A j \in (i + 1)..Len(q) : q[i] # q[j]
             /\ \A s \in DOMAIN written :
-                  (status[s][t] = "must" /\ Selected(t, k, written[s]) /\ Settled(s, t))
+                  (status[s][t] = "must" /\ t \notin died /\ Selected(t, k, written[s]) /\ Settled(s, t))
                       => \E i \in DOMAIN q : q[i] = s
 
 (* nothing reaches a task that did not declare the dbrp, a from() node that    *)
@@ -224,7 +258,7 @@ NeverForeign ==
 
 OrderPreserved ==
     \A t \in T : \A k \in DOMAIN delivered[t] :
-        \A i, j \in DOMAIN delivered[t][k] : i < j => delivered[t][k][i] < delivered[t][k][j]
+        \A i \in 1..(Len(delivered[t][k]) - 1) : delivered[t][k][i] < delivered[t][k][i + 1]
 
 (* the routing table routes exactly to the executing tasks, under their keys;  *)
 (* a stale entry would make forkPoint collect on a closed edge (a panic)        *)
@@ -236,11 +270,12 @@ TableConsistent ==
 
 (* nothing is handed to a task that is not executing (its edge has no reader:   *)
 (* after 1000 points forkPoint would block for ever, holding tm.mu.RLock)        *)
-NoOrphanDelivery == \A t \in T : t \notin executing => taskEdge[t] = <<>>
+NoOrphanDelivery == \A t \in T : (t \notin executing \/ t \in dead) => taskEdge[t] = <<>>
 
-(* a lifecycle call on u changes nothing that belongs to another task t        *)
+(* a lifecycle call on u, or the death of u, changes nothing that belongs to    *)
+(* another task t                                                                *)
 NonInterferenceStep ==
-    \A u \in T : Lifecycle(u) =>
+    \A u \in T : (Lifecycle(u) \/ Die(u)) =>
         \A t \in T \ {u} :
             /\ delivered'[t] = delivered[t] /\ taskEdge'[t] = taskEdge[t]
             /\ RoutesOf(forks', t) = RoutesOf(forks, t)
